@@ -167,7 +167,7 @@ func (e *Exec) newWorld(kv map[string]string) error {
 	registerTick(w.P)
 	registerTick(w.R)
 	// the producer's miner talks to a scripted consensus and a network that records what is broadcast
-	w.Cons, w.Net = &scriptCons{}, newCaptureNet()
+	w.Cons, w.Net = &scriptCons{signer: w.Miners[0]}, newCaptureNet()
 	w.P.Ctx.Consensus = w.Cons
 	w.P.Ctx.EngCtx.Net = w.Net
 	w.Miner = miner.NewMiner(w.P.Ctx)
